@@ -99,7 +99,8 @@ def static_is_scan(names):
     import ast as pyast
     bad = []
     names = set(names)
-    for path in sorted(glob.glob("/repo/shroud/*.py")):
+    import shroud
+    for path in sorted(glob.glob(os.path.join(os.path.dirname(os.path.abspath(shroud.__file__)), "*.py"))):
         with open(path) as f:
             src = f.read()
         try:
